@@ -1,6 +1,201 @@
-(* C02 (placeholder, theorems follow) *)
-From Jen Require Import Model.FileRender.
+(* C02: a successful render is exactly the formatter applied to the raw rendering; arbitrary
+   (nonsensical) trees are reported as errors, never panics, never emitted as if valid.
+   Statements only; proofs are lemmas of Proofs/TotalProofs.v.
+
+   The external formatter go/format.Source is the function [fmt : str -> option str]
+   (None = it returned an error); the writer's fault schedule is [wf]. *)
+From Jen Require Import Base.Bytes GoStd.Quote Model.Code Model.Naming Model.Render Model.FileRender.
+From Jen Require Import Proofs.NamingProofs Proofs.TotalProofs.
+Local Open Scope bool_scope.
+
+(* ------------------------------------------------------------------ NoFormat and the formatter *)
+
+(* With NoFormat set the writer receives the raw rendering itself. *)
 Theorem C02_noformat_bypass : forall fmt wf f raw t,
   file_raw f = Ok (t, raw) -> f_noformat f = true ->
   snd (file_render fmt wf f) = OWrite raw (wf 1%nat).
 Proof. intros fmt wf f raw t H Hn. unfold file_render. rewrite H. cbn. unfold emit. rewrite Hn. reflexivity. Qed.
+
+(* For every file f, formatter and writer: render f once with NoFormat set (f1) and once
+   with NoFormat cleared (f0).  The raw text is the same function of the file in both (it
+   does not look at NoFormat), both leave the same import table behind, a panic is the same
+   panic in both, and otherwise f1 writes the raw text while f0 writes o exactly when the
+   formatter maps the raw text to o, and returns the format error (carrying the raw text,
+   nothing written) exactly when the formatter rejects the raw text.  The bypass is the ONLY
+   difference; formatting happens exactly once. *)
+Theorem C02_formatted_is_fmt_of_raw : forall fmt wf f,
+  let f1 := set_noformat f true in
+  let f0 := set_noformat f false in
+  file_raw f1 = file_raw f /\ file_raw f0 = file_raw f /\
+  f_imports (fst (file_render fmt wf f1)) = f_imports (fst (file_render fmt wf f0)) /\
+  match file_raw f with
+  | Panic m => snd (file_render fmt wf f1) = OPanic m /\ snd (file_render fmt wf f0) = OPanic m
+  | Ok (t, raw) =>
+    f_imports (fst (file_render fmt wf f0)) = t /\
+    snd (file_render fmt wf f1) = OWrite raw (wf 1%nat) /\
+    (forall o b, snd (file_render fmt wf f0) = OWrite o b <-> fmt raw = Some o /\ b = wf 1%nat) /\
+    (forall r, snd (file_render fmt wf f0) = OFormatErr r <-> fmt raw = None /\ r = raw)
+  end.
+Proof. exact formatted_is_fmt_of_raw. Qed.
+
+(* Statement.RenderWithFile / Group.RenderWithFile (and Render, GoString): always formatted,
+   whatever the File's NoFormat flag says. *)
+Theorem C02_fragment_is_fmt_of_raw : forall fmt wf c f b,
+  code_render_with_file fmt wf c (set_noformat f b) =
+    (set_noformat (fst (code_render_with_file fmt wf c f)) b, snd (code_render_with_file fmt wf c f)) /\
+  match render (file_cfg f) false (f_imports f) c with
+  | Panic m => snd (code_render_with_file fmt wf c f) = OPanic m
+  | Ok (t, raw) =>
+    f_imports (fst (code_render_with_file fmt wf c f)) = t /\
+    (forall o b, snd (code_render_with_file fmt wf c f) = OWrite o b <-> fmt raw = Some o /\ b = wf 1%nat) /\
+    (forall r, snd (code_render_with_file fmt wf c f) = OFormatErr r <-> fmt raw = None /\ r = raw)
+  end.
+Proof. exact fragment_is_fmt_of_raw. Qed.
+
+(* ------------------------------------------------------------------ the naming loop terminates *)
+
+(* The `for !isValidAlias` loop of register always terminates: with m = |reserved words| +
+   |entries of the table| at most 2m+1 candidates can be rejected (pigeonhole: a rejected
+   candidate, or its prefixed form, is a reserved word or a name in the table, and both
+   forms are injective in the index), so the index found is at most 2m+1 - the fuel 2m+2
+   of the model is never exhausted.  Every configuration, table and base name. *)
+Theorem C02_register_terminates : forall cfg t name alias,
+  exists i, uniquify cfg t name alias (register_fuel t) 0 = Some i /\
+            (N.to_nat i <= 2 * (length t + length Gen.Tables.reserved) + 1)%nat /\
+            candidate_ok cfg t name alias i = true /\
+            forall j, (j < i)%N -> candidate_ok cfg t name alias j = false.
+Proof. exact uniquify_total. Qed.
+
+Theorem C02_register_total : forall cfg t path, exists t' n, register cfg t path = Ok (t', n).
+Proof. exact register_total. Qed.
+
+(* ------------------------------------------------------------------ when rendering panics *)
+
+(* SUFFICIENT, syntactic: a tree whose root is not a nil value, with no literal of
+   unsupported type and no values-group holding a Dict among two or more items anywhere,
+   renders normally - for every configuration, context and table, whatever the tree is
+   otherwise (valid Go or nonsense, nil items below the root, any size). *)
+Theorem C02_no_panic_sufficient : forall c, safe c = true ->
+  forall cfg ctx t, exists t1 s, render cfg ctx t c = Ok (t1, s).
+Proof. intros c H cfg. exact (safe_total cfg c H). Qed.
+
+(* NECESSARY, with the message: every panic of render is one of three - the nil
+   dereference of a nil value that is the ROOT of the render (nil items below the root are
+   null and skipped by every loop), the explicit Values/Dict panic of a group that is in the
+   tree, or the documented unsupported-literal panic of a literal that is in the tree.  No
+   other panic exists (in particular not the model's own fuel panic). *)
+Theorem C02_panic_cause : forall cfg c ctx t m, render cfg ctx t c = Panic m ->
+  (is_nil c = true /\ m = s_nilptr) \/
+  (m = s_values_panic /\ anywhere values_dict c = true) \/
+  (exists ty, m = s_unsupported ++ ty /\ anywhere (bad_lit_named ty) c = true).
+Proof. intros cfg c ctx t m H. exact (render_panic_cause cfg c ctx t m H). Qed.
+
+(* EXACT: render panics iff a panic is REACHED, where [reach cfg t c] (Proofs/TotalProofs.v)
+   reads the tree at the initial table t: the root is a nil value or an unsupported literal;
+   or a group that is not an all-null "types" group has a non-null item that either is a
+   Dict while the group is a "values" group of two or more items, or itself reaches a
+   panic; or a statement has a non-null item that reaches one; or a Dict has a pair with
+   both sides non-null one side of which reaches one.  Null-ness is taken at t because no
+   registration changes it (render_dext).  Every configuration, context, table and tree. *)
+Theorem C02_no_panic : forall cfg c ctx t,
+  (exists m, render cfg ctx t c = Panic m) <-> reach cfg t c = true.
+Proof. exact render_panics_iff. Qed.
+
+(* Each of the three panics occurs ... *)
+Example C02_panic_unsupported_literal :
+  render (mkcfg [] [] []) false [] (CStmt [CTok (TkId (S "x")); CTok (TkLit (LBad (S "struct {}")))])
+  = Panic (S "unsupported type for literal: struct {}").
+Proof. vm_compute. reflexivity. Qed.
+
+Example C02_panic_values_dict :
+  render (mkcfg [] [] []) false []
+    (CGroup 1 (S "values") (S "{") (S "}") (S ",") false
+       [CDict [(CTok (TkId (S "a")), CTok (TkId (S "b")))]; CTok (TkId (S "x"))])
+  = Panic s_values_panic.
+Proof. vm_compute. reflexivity. Qed.
+
+Example C02_panic_nil_root :
+  render (mkcfg [] [] []) false [] CNilStmt = Panic s_nilptr /\
+  (* ... but a nil item below the root is skipped *)
+  render (mkcfg [] [] []) false [] (CStmt [CNil; CTok (TkId (S "x")); CNilGroup]) = Ok ([], S "x").
+Proof. vm_compute. split; reflexivity. Qed.
+
+(* ... and the syntactic condition is not necessary: an unsupported literal as the key of a
+   Dict pair whose value is null is never rendered, and Values(Dict{}) with an empty Dict
+   and a second item does not panic (the empty Dict is null). *)
+Example C02_unreached_panic :
+  let c1 := CDict [(CTok (TkLit (LBad (S "T"))), CTok TkNull)] in
+  let c2 := CGroup 1 (S "values") (S "{") (S "}") (S ",") false [CDict []; CTok (TkId (S "x"))] in
+  safe c1 = false /\ render (mkcfg [] [] []) false [] c1 = Ok ([], []) /\
+  safe c2 = false /\ render (mkcfg [] [] []) false [] c2 = Ok ([], S "{x}").
+Proof. vm_compute. repeat split; reflexivity. Qed.
+
+(* ------------------------------------------------------------------ invalid code is an error *)
+
+(* A File whose items are safe (see above; nil items allowed) never panics in Render: the
+   raw text exists, and the call either writes (the raw text under NoFormat, the
+   formatter's output otherwise) or - exactly when the formatter rejects the raw text -
+   returns the format error and writes nothing.  Invalid compositions are therefore an
+   error, not a panic, and are never emitted as if valid. *)
+Theorem C02_invalid_is_error_not_panic : forall fmt wf f,
+  forallb safe_in (f_items f) = true ->
+  exists t raw, file_raw f = Ok (t, raw) /\
+    f_imports (fst (file_render fmt wf f)) = t /\
+    (forall m, snd (file_render fmt wf f) <> OPanic m) /\
+    ((f_noformat f = true /\ snd (file_render fmt wf f) = OWrite raw (wf 1%nat)) \/
+     (f_noformat f = false /\ exists o, fmt raw = Some o /\ snd (file_render fmt wf f) = OWrite o (wf 1%nat)) \/
+     (f_noformat f = false /\ fmt raw = None /\ snd (file_render fmt wf f) = OFormatErr raw)).
+Proof. exact invalid_is_error_not_panic. Qed.
+
+(* the same for a fragment rendered on its own *)
+Theorem C02_invalid_fragment_is_error_not_panic : forall fmt wf c f,
+  safe c = true ->
+  exists t raw, render (file_cfg f) false (f_imports f) c = Ok (t, raw) /\
+    (forall m, snd (code_render_with_file fmt wf c f) <> OPanic m) /\
+    ((exists o, fmt raw = Some o /\ snd (code_render_with_file fmt wf c f) = OWrite o (wf 1%nat)) \/
+     (fmt raw = None /\ snd (code_render_with_file fmt wf c f) = OFormatErr raw)).
+Proof. exact invalid_fragment_is_error_not_panic. Qed.
+
+(* ------------------------------------------------------------------ successful output parses *)
+(* TRUSTED CONTRACT of go/format.Source (external; DESIGN.md section 3): when it returns no
+   error its output is a syntactically valid Go source file (resp. declaration/statement
+   list).  [parses] is abstract.  Under it, whatever a formatted render writes parses. *)
+Section Parses.
+  Variable fmt : str -> option str.
+  Variable wf : nat -> bool.
+  Variable parses : str -> Prop.
+  Hypothesis fmt_sound : forall s o, fmt s = Some o -> parses o.
+
+  Theorem C02_success_parses : forall f o b,
+    f_noformat f = false -> snd (file_render fmt wf f) = OWrite o b -> parses o.
+  Proof. exact (success_parses fmt wf parses fmt_sound). Qed.
+
+  Theorem C02_fragment_success_parses : forall c f o b,
+    snd (code_render_with_file fmt wf c f) = OWrite o b -> parses o.
+  Proof. exact (fragment_success_parses fmt wf parses fmt_sound). Qed.
+End Parses.
+
+(* Non-vacuity: a nonsensical tree (an operator, a case clause outside a switch, a Dict and
+   an imported name in a row) is safe, renders to raw text, and a formatter that rejects
+   everything turns it into a format error carrying that text; a valid file with the
+   identity formatter is written. *)
+Example C02_example_invalid :
+  let c := CStmt [CTok (TkText (S "+")); CGroup 1 (S "case") (S "case ") (S ":") (S ",") false [CTok (TkLit (LInt 1))];
+                  CDict [(CTok (TkId (S "k")), CNil); (CTok (TkLit (LStr (S "a"))), CTok (TkText (S "func")))];
+                  CGroup 2 (S "qual") [] [] (S ".") false [CTok (TkPkg (S "a.b/c")); CTok (TkId (S "X"))]] in
+  let f := add_item (new_file (S "p")) c in
+  forallb safe_in (f_items f) = true /\
+  snd (file_render (fun _ => None) (fun _ => false) f)
+  = OFormatErr (S "package p" ++ [x0a; x0a] ++ S "import c " ++ [c_dq] ++ S "a.b/c" ++ [c_dq] ++ [x0a; x0a; x0a] ++
+                S "+ case 1: " ++ [c_dq] ++ S "a" ++ [c_dq] ++ S ":func c.X") /\
+  snd (file_render (fun _ => None) (fun _ => false) (set_noformat f true))
+  = OWrite (S "package p" ++ [x0a; x0a] ++ S "import c " ++ [c_dq] ++ S "a.b/c" ++ [c_dq] ++ [x0a; x0a; x0a] ++
+            S "+ case 1: " ++ [c_dq] ++ S "a" ++ [c_dq] ++ S ":func c.X") false.
+Proof. vm_compute. repeat split; reflexivity. Qed.
+
+Example C02_example_valid :
+  let f := add_item (new_file (S "p")) (CStmt [CTok (TkText (S "var")); CTok (TkId (S "x")); CTok (TkText (S "=")); CTok (TkLit (LInt 1))]) in
+  forallb safe_in (f_items f) = true /\
+  snd (file_render (fun s => Some s) (fun _ => false) f)
+  = OWrite (S "package p" ++ [x0a; x0a; x0a] ++ S "var x = 1") false.
+Proof. vm_compute. split; reflexivity. Qed.
